@@ -456,10 +456,26 @@ def get_attribute(I, o, name, default=_NOCONST):
     elif isinstance(o, VExc):
         if name == "args":
             return VTuple(o.args)
+        if name in getattr(o, "attrs", {}):
+            return o.attrs[name]
+        if name == "errno" and exc_is_sub(o.cls, "OSError") and not (o.args and isinstance(o.args[0], VObj)):
+            # OSError.errno of an exception raised by a trusted I/O model / a callee contract: an arbitrary int
+            # (errno None behaves like an int outside every errno set for the membership tests it is used in)
+            if not hasattr(o, "attrs"):
+                o.attrs = {}
+            o.attrs["errno"] = VInt(I.path.fresh("errno", z3.IntSort()))
+            return o.attrs["errno"]
         if o.args and isinstance(o.args[0], VObj):
             return get_attribute(I, o.args[0], name, default)
     elif isinstance(o, VFile):
+        if name in getattr(o, "attrs", {}):
+            return o.attrs[name]
         return VFunc("bmethod", name, selfv=o)
+    elif isinstance(o, VPath):
+        from . import fsmodel
+        r = fsmodel.path_attr(I, o, name)
+        if r is not None:
+            return r
     elif isinstance(o, VFunc):
         if name == "__name__":
             return VStr(o.name)
@@ -559,12 +575,22 @@ def call_contract(I, c, f, args, kwargs):
     caller = I.cur_obl_prefix()
     for nm, src in c.requires:
         I.path.prove(I.eval_spec(src, env), "%s/call:%s/pre:%s" % (caller, c.short, nm), "call-pre", where=src)
+    cur = I.cur_contract
+    if cur is not None and getattr(cur, "call_pre", None) and c.key in cur.call_pre and len(I.fn_stack) == 1:
+        # caller-side cut point: clauses over the calling function's own locals / ghost state, proved before the call
+        for nm, src in cur.call_pre[c.key]:
+            I.path.prove(I.eval_spec(src, I.top_env), "%s/before-call:%s/%s" % (caller, c.short, nm), "assert", where=src)
     snap = I.snapshot_env(env)
     saved_old = I.old_env
     try:
         for p in c.modifies:
             _havoc_path(I, p, env)
         I.old_env = snap
+        if "fs" in c.modifies:
+            # the havoc'd ghost file system stands for *every* intermediate (crash) state of the callee: it is only
+            # known to satisfy the callee's crash invariant, from which the caller's must follow
+            from . import fsmodel
+            fsmodel.at_modular_call(I, c, env, snap, saved_old)
         for cls, cond in c.raises_list():
             b = I.path.fresh("raised_%s_%s" % (c.short.replace(".", "_"), cls), z3.BoolSort())
             if cond is not None:
@@ -800,7 +826,22 @@ def bi_str(I, args, kw):
         return VStr("None")
     if isinstance(v, VBool):
         return VStr(z3.If(v.e, z3.StringVal("True"), z3.StringVal("False")))
+    if isinstance(v, VPath):
+        from . import fsmodel
+        return fsmodel.path_str(I, v)
     return I.ver.opaque_str("str", v, I)
+
+
+def bi_open(I, args, kw):
+    """builtin open(): trusted contract in pyvc/fsmodel.py (abstract file system)"""
+    from . import fsmodel
+    return fsmodel.fs_open(I, args, kw)
+
+
+def sp_fs_key(I, args, kw):
+    """spec function fs_key(p): key of a Path / str in the ghost file system (pyvc/fsmodel.py)"""
+    from . import fsmodel
+    return fsmodel.sp_fs_key(I, args, kw)
 
 
 def bi_abs(I, args, kw):
@@ -1242,7 +1283,7 @@ BUILTIN_FUNCS = {
     "set": bi_set, "sorted": bi_sorted, "enumerate": bi_enumerate, "range": bi_range, "iter": bi_iter,
     "round": bi_round, "sum": bi_sum, "any": bi_any_all(True), "all": bi_any_all(False), "id": bi_id,
     "hash": bi_hash, "object": bi_object, "type": bi_type, "print": bi_print, "zip": bi_zip,
-    "deque": bi_deque, "OrderedDict": None,
+    "deque": bi_deque, "OrderedDict": None, "open": bi_open, "fs_key": sp_fs_key,
 }
 BUILTIN_TYPES = {"int": bi_int, "float": bi_float, "bool": bi_bool, "str": bi_str, "list": bi_list,
                  "tuple": bi_tuple, "dict": bi_dict, "set": bi_set, "object": bi_object, "deque": bi_deque}
@@ -1297,6 +1338,9 @@ def call_bmethod(I, o, name, args, kw):
         return str_method(I, o, name, args, kw)
     if isinstance(o, VFile):
         return I.ver.fs_method(I, o, name, args, kw)
+    if isinstance(o, VPath):
+        from . import fsmodel
+        return fsmodel.path_method(I, o, name, args, kw)
     raise Unsupported("method %s of %s" % (name, type(o).__name__))
 
 
@@ -1571,7 +1615,28 @@ def str_method(I, s, name, args, kw):
     if name in ("lower", "upper", "strip", "lstrip", "rstrip"):
         return VStr(I.ver.str_fn(name)(s.e))
     if name == "encode":
-        return s
+        # bytes are modelled as str: a UTF-8 byte string is represented by the text it encodes (identity); any other
+        # codec is an opaque deterministic function of (text, codec).  Encoding may fail (lone surrogates /
+        # unencodable characters: UnicodeEncodeError; unknown codec name: LookupError) -- exec mode forks.
+        enc = args[0] if args else kw.get("encoding")
+        cenc = "utf-8" if enc is None else (const_of(enc) if isinstance(enc, VStr) else _NOCONST)
+        known = isinstance(cenc, str) and cenc.lower().replace("_", "-") in ("utf-8", "utf8")
+        if not known and not isinstance(enc, VStr):
+            raise Unsupported("str.encode with a non-string codec")
+        utf8 = z3.BoolVal(True) if known else z3.Or(enc.e == z3.StringVal("utf-8"), enc.e == z3.StringVal("utf8"))
+        if not I.spec:
+            if I.path.choice():
+                I.raise_exc("UnicodeEncodeError", "codec can't encode character")
+            if not known:
+                if I.path.choice():
+                    I.path.assume(z3.Not(utf8))     # "utf-8" / "utf8" are known codecs
+                    I.raise_exc("LookupError", "unknown encoding")
+        if known:
+            return s
+        if isinstance(enc, VStr):
+            other = I.ver.opaque_str("encode", VTuple([s, enc]), I)
+            return VStr(z3.If(utf8, s.e, other.e))
+        raise Unsupported("str.encode with a non-string codec")
     if name == "replace":
         return VStr(z3.Replace(s.e, args[0].e, args[1].e)) if False else I.ver.opaque_str("replace", VTuple([s] + list(args)), I)
     if name == "find":
@@ -1765,24 +1830,45 @@ Interp.assign_spec = assign_spec
 
 def exec_with(I, s, env):
     entered = []
-    try:
-        for it in s.items:
-            cm = I.force(I.ev(it.context_expr, env))
-            I.with_stack.append(cm)
-            entered.append(cm)
-            val = cm
-            if isinstance(cm, VObj):
-                ci = I.class_of(cm)
-                if ci is not None and ci.find_method("__enter__"):
-                    val = I.call_method_ast(cm, "__enter__", [], {})
-            if it.optional_vars is not None:
-                I.assign(it.optional_vars, val, env)
-        I.exec_block(s.body, env)
-    finally:
-        for cm in reversed(entered):
-            I.with_stack.pop()
+
+    def leave(exc):
+        # __exit__ of file objects = close() (may itself raise: the new exception then replaces the one in flight);
+        # only run for python-level exits (normal / exception / return / break / continue), never for engine signals
+        err = None
+        while entered:
+            cm = entered.pop()
             if isinstance(cm, VFile):
-                I.ver.fs_method(I, cm, "close", [], {})
+                try:
+                    I.ver.fs_method(I, cm, "__exit__", [], {})
+                except PyRaise as pr:
+                    err = pr
+        if err is not None:
+            raise err
+
+    depth = len(I.with_stack)
+    try:
+        try:
+            for it in s.items:
+                cm = I.force(I.ev(it.context_expr, env))
+                I.with_stack.append(cm)
+                entered.append(cm)
+                val = cm
+                if isinstance(cm, VObj):
+                    ci = I.class_of(cm)
+                    if ci is not None and ci.find_method("__enter__"):
+                        val = I.call_method_ast(cm, "__enter__", [], {})
+                if it.optional_vars is not None:
+                    I.assign(it.optional_vars, val, env)
+            I.exec_block(s.body, env)
+        except (PyRaise, ReturnSig, BreakSig, ContinueSig) as sig:
+            del I.with_stack[depth:]
+            leave(sig)
+            raise
+        else:
+            del I.with_stack[depth:]
+            leave(None)
+    finally:
+        del I.with_stack[depth:]
 
 
 def _iter_protocol(I, it):
